@@ -33,6 +33,9 @@ use tokio::io::{AsyncReadExt, AsyncWriteExt};
 use tokio::net::TcpStream;
 use vh::{Ctx, Rng, fnv64, mix64};
 
+#[path = "c15/ext.rs"]
+mod ext;
+
 const DEFAULT_CDN_PATH: &str = "tpr/default";
 const CDN_HOSTS: &str = "cdn.example.test edge.example.test";
 const ENDPOINTS: [&str; 3] = ["versions", "cdns", "bgdl"];
@@ -158,6 +161,28 @@ const BUILD_CLASSES: [&str; 13] = [
 ];
 const KEYRING_CLASSES: [&str; 7] = ["valid-lower", "valid-upper", "non-hex-32", "short-even-hex", "odd-hex", "pipe", "empty"];
 const CDN_PATH_EXTRA: [&str; 1] = ["empty"];
+/// `product`, `version` and `build` left empty (coverage-driven extension: the validator's emptiness branches)
+const EMPTY_FIELDS: [&str; 3] = ["product", "version", "build"];
+/// Timestamps that are not RFC 3339 date-times. "Newest" is undefined for them, so they are only given to the ONLY build
+/// of a product: whatever the server makes of the text, that build is the one to serve.
+const TS_GARBAGE: [(&str, &str); 16] = [
+    ("empty", ""),
+    ("no-T", "2021-03-04 05:06:07Z"),
+    ("T-and-colon-only", "T:"),
+    ("no-offset", "2021-03-04T05:06:07"),
+    ("month-13", "2021-13-04T05:06:07Z"),
+    ("day-32", "2021-03-32T05:06:07Z"),
+    ("hour-25", "2021-03-04T25:06:07Z"),
+    ("second-60", "2021-03-04T23:59:60Z"),
+    ("offset-99", "2021-03-04T05:06:07+99:99"),
+    ("offset-no-colon", "2021-03-04T05:06:07+0530"),
+    ("lowercase-t", "2021-03-04t05:06:07z"),
+    ("trailing-junk", "2021-03-04T05:06:07Z and more"),
+    ("digits-non-ascii", "\u{662}\u{660}\u{662}\u{661}-03-04T05:06:07Z"),
+    ("year-5-digits", "12021-03-04T05:06:07Z"),
+    ("fraction-only-dot", "2021-03-04T05:06:07.Z"),
+    ("pipe", "2021-03-04T05:06:07Z|x"),
+];
 
 fn token(rng: &mut Rng, lo: usize, hi: usize) -> String {
     let n = rng.urange(lo, hi);
@@ -301,8 +326,9 @@ fn set_field(rng: &mut Rng, b: &mut GenBuild, field: &'static str, class: &str) 
             }
         }
         "cdn_path" => b.rec.cdn_path = Some(hostile_string(rng, class, 1200)),
-        "build" => b.rec.build = hostile_build(rng, class),
+        "build" => b.rec.build = if class == "empty" { String::new() } else { hostile_build(rng, class) },
         "keyring" => b.rec.keyring = hostile_keyring(rng, class),
+        "build_time" => b.rec.build_time = TS_GARBAGE.iter().find(|(c, _)| *c == class).map_or_else(String::new, |(_, t)| (*t).to_string()),
         _ => {}
     }
     b.cls.insert(field, class.to_string());
@@ -384,6 +410,22 @@ fn phase_a_cases(rng: &mut Rng) -> Vec<DbCase> {
     }
     for c in KEYRING_CLASSES {
         add_single(rng, "keyring", c, &mut cases);
+    }
+    for f in EMPTY_FIELDS {
+        add_single(rng, f, "empty", &mut cases);
+    }
+    // a product whose only build carries a timestamp that is not an RFC 3339 date-time
+    for (class, _) in TS_GARBAGE {
+        let base = BASE_EPOCH + rng.range(0, 400_000_000) as i64;
+        let s = gen_stamp(rng, base, 1000, 0);
+        let control = benign_build(rng, id, "control_prod", s);
+        id += 1;
+        let subject = format!("subj_{}", token(rng, 3, 5));
+        let s1 = Stamp { text: String::new(), instant_ns: i128::from(base) * 1_000_000_000 };
+        let mut only = benign_build(rng, id, &subject, s1);
+        id += 1;
+        set_field(rng, &mut only, "build_time", class);
+        cases.push(DbCase { label: format!("A:build_time:{class}"), builds: vec![control, only], focus: Some(("build_time".to_string(), class.to_string(), subject)) });
     }
     // timestamp pairs: the older-by-instant build is made to look newer as a string
     let ts_pairs: [(&str, (i64, i32, u8, usize), (i64, i32, u8, usize)); 6] = [
@@ -626,9 +668,10 @@ fn err_class(e: &ProtocolError) -> String {
     }
 }
 
-fn expected_row(endpoint: &str, b: &BuildRecord) -> Vec<(&'static str, String)> {
+/// `default_path` = the CDN path of the server configuration (used by builds without a path of their own)
+fn expected_row_d(endpoint: &str, b: &BuildRecord, default_path: &str) -> Vec<(&'static str, String)> {
     if endpoint == "cdns" {
-        let p = b.cdn_path.clone().unwrap_or_else(|| DEFAULT_CDN_PATH.to_string());
+        let p = b.cdn_path.clone().unwrap_or_else(|| default_path.to_string());
         vec![("Path", p.clone()), ("ConfigPath", p)]
     } else {
         vec![
@@ -663,17 +706,21 @@ struct Fail {
 }
 
 fn judge_product(doc: &BpsvDocument, endpoint: &str, all: &[&GenBuild], newest: &[&GenBuild]) -> Result<(), Fail> {
+    judge_product_d(doc, endpoint, all, newest, DEFAULT_CDN_PATH)
+}
+
+fn judge_product_d(doc: &BpsvDocument, endpoint: &str, all: &[&GenBuild], newest: &[&GenBuild], default_path: &str) -> Result<(), Fail> {
     if doc.rows().is_empty() {
         return Err(Fail { outcome: "no-rows".into(), detail: json!({}) });
     }
     for i in 0..doc.row_count() {
-        if newest.iter().any(|b| row_diff(doc, i, &expected_row(endpoint, &b.rec)).is_none()) {
+        if newest.iter().any(|b| row_diff(doc, i, &expected_row_d(endpoint, &b.rec, default_path)).is_none()) {
             continue;
         }
-        if let Some(stale) = all.iter().find(|b| row_diff(doc, i, &expected_row(endpoint, &b.rec)).is_none()) {
+        if let Some(stale) = all.iter().find(|b| row_diff(doc, i, &expected_row_d(endpoint, &b.rec, default_path)).is_none()) {
             // which build would plain string order have called the newest?
             let string_max = all.iter().max_by(|a, b| a.rec.build_time.cmp(&b.rec.build_time));
-            let why = if string_max.is_some_and(|m| row_diff(doc, i, &expected_row(endpoint, &m.rec)).is_none()) { "string-order-differs-from-instant-order" } else { "other-order" };
+            let why = if string_max.is_some_and(|m| row_diff(doc, i, &expected_row_d(endpoint, &m.rec, default_path)).is_none()) { "string-order-differs-from-instant-order" } else { "other-order" };
             return Err(Fail {
                 outcome: format!("stale-build|{why}"),
                 detail: json!({"row": i, "served_build_id": stale.rec.id, "served_build_time": stale.rec.build_time,
@@ -681,11 +728,11 @@ fn judge_product(doc: &BpsvDocument, endpoint: &str, all: &[&GenBuild], newest: 
                     "newest_build_times": newest.iter().map(|b| b.rec.build_time.clone()).collect::<Vec<_>>()}),
             });
         }
-        let col = row_diff(doc, i, &expected_row(endpoint, &newest[0].rec)).unwrap_or_default();
+        let col = row_diff(doc, i, &expected_row_d(endpoint, &newest[0].rec, default_path)).unwrap_or_default();
         let got: Vec<String> = doc.get_row(i).map(|r| r.raw_values().to_vec()).unwrap_or_default();
         return Err(Fail {
             outcome: format!("field-mismatch:{col}"),
-            detail: json!({"row": i, "got_row": got, "expected": expected_row(endpoint, &newest[0].rec).iter().map(|(c, v)| json!({"col": c, "val": v})).collect::<Vec<_>>()}),
+            detail: json!({"row": i, "got_row": got, "expected": expected_row_d(endpoint, &newest[0].rec, default_path).iter().map(|(c, v)| json!({"col": c, "val": v})).collect::<Vec<_>>()}),
         });
     }
     Ok(())
@@ -992,6 +1039,18 @@ async fn run_db(ctx: &Ctx, case: DbCase, implicated: &Implicated, stream: u64) {
             report(ctx, &case, implicated, endpoint, product, all, &newest, &results, &db_json);
         }
     }
+    // a product the database does not contain: every transport, one endpoint per database (in rotation)
+    ext::probe_unknown_products(ctx, &clients, &products, ENDPOINTS[(db_hash % 3) as usize], &mut rng, &db_json).await;
+    // the reader's other entry points on the raw v2 reply for one product and endpoint
+    if let Some((product, all)) = by_product.iter().find(|(p, _)| tcp_requestable(p)) {
+        let endpoint = ENDPOINTS[((db_hash >> 8) % 3) as usize];
+        let max = all.iter().map(|b| b.instant_ns).max().unwrap_or(0);
+        let newest: Vec<&GenBuild> = all.iter().copied().filter(|b| b.instant_ns == max).collect();
+        match tokio::time::timeout(Duration::from_secs(45), clients.ribbit.query_raw(&format!("v2/products/{product}/{endpoint}"))).await {
+            Ok(Ok(reply)) => ext::reader_entry_points(ctx, &reply, endpoint, all, &newest, dir.path(), &db_json),
+            _ => ctx.obs("reader.raw-reply-not-available", 1),
+        }
+    }
     // summary (TCP v1 only)
     {
         let mut results: Vec<(Tr, Result<(), Fail>)> = Vec::new();
@@ -1203,6 +1262,13 @@ fn tcp_hostile_cases(rng: &mut Rng) -> Vec<(&'static str, Vec<u8>)> {
         ("unknown-product", b"v1/products/no_such_product/versions\r\n".to_vec()),
         ("unknown-product-v2", b"v2/products/no_such_product/cdns\r\n".to_vec()),
         ("unknown-endpoint", b"v1/products/wow/nonsense\r\n".to_vec()),
+        ("unknown-endpoint-v2", b"v2/products/wow/nonsense\r\n".to_vec()),
+        ("unknown-product-cdns", b"v1/products/no_such_product/cdns\r\n".to_vec()),
+        ("unknown-product-bgdl-v2", b"v2/products/no_such_product/bgdl\r\n".to_vec()),
+        ("known-product-other-case", b"v1/products/WOW/versions\r\n".to_vec()),
+        ("summary-trailing-slash", b"v1/summary/\r\n".to_vec()),
+        ("certs-not-served", b"v1/certs/5168ff90af0207753cccd9656462a212b859723b\r\n".to_vec()),
+        ("ocsp-not-served", b"v1/ocsp/5168ff90af0207753cccd9656462a212b859723b\r\n".to_vec()),
         ("arity-short", b"v1/products/wow\r\n".to_vec()),
         ("arity-long", b"v1/products/wow/versions/extra\r\n".to_vec()),
         ("arity-v2-summary", b"v2/summary\r\n".to_vec()),
@@ -1239,6 +1305,10 @@ fn http_hostile_cases() -> Vec<(&'static str, Vec<u8>, Option<u16>)> {
     vec![
         ("http-unknown-product", b"GET /no_such_product/versions HTTP/1.1\r\nHost: x\r\nConnection: close\r\n\r\n".to_vec(), Some(404)),
         ("http-unknown-endpoint", b"GET /wow/nonsense HTTP/1.1\r\nHost: x\r\nConnection: close\r\n\r\n".to_vec(), Some(404)),
+        ("http-unknown-product-cdns", b"GET /no_such_product/cdns HTTP/1.1\r\nHost: x\r\nConnection: close\r\n\r\n".to_vec(), Some(404)),
+        ("http-unknown-product-bgdl", b"GET /no_such_product/bgdl HTTP/1.1\r\nHost: x\r\nConnection: close\r\n\r\n".to_vec(), Some(404)),
+        ("http-known-product-other-case", b"GET /WOW/versions HTTP/1.1\r\nHost: x\r\nConnection: close\r\n\r\n".to_vec(), Some(404)),
+        ("http-summary-not-served", b"GET /summary HTTP/1.1\r\nHost: x\r\nConnection: close\r\n\r\n".to_vec(), Some(404)),
         ("http-arity", b"GET /wow HTTP/1.1\r\nHost: x\r\nConnection: close\r\n\r\n".to_vec(), Some(404)),
         ("http-post", b"POST /wow/versions HTTP/1.1\r\nHost: x\r\nContent-Length: 0\r\nConnection: close\r\n\r\n".to_vec(), None),
         ("http-garbage", b"\x16\x03\x01\x02\x00\x01\x00\x01\xfc\x03\x03 garbage\r\n\r\n".to_vec(), None),
@@ -1543,7 +1613,17 @@ fn main() {
 
     if let Some(detail) = ctx.replay_detail() {
         // replay: run exactly the recorded database through the same requests
-        if let Some(arr) = detail.get("db").and_then(Value::as_array) {
+        if let Some(c) = detail.get("config") {
+            // a configuration finding: the recorded cdn_hosts / cdn_path (replay files keep the first 400 characters)
+            let g = |k: &str| c.get(k).and_then(Value::as_str).unwrap_or("").to_string();
+            println!("replaying server configuration cdn_hosts={:?} cdn_path={:?}", g("cdn_hosts"), g("cdn_path"));
+            rt.block_on(async {
+                ext::run_config_case(&ctx, ext::CfgCase { field: "explicit", class: "replayed", stream: 1, explicit: Some((g("cdn_hosts"), g("cdn_path"))) }).await;
+                ext::shutdown_configured_servers(&ctx).await;
+            });
+            ctx.nontrivial(1);
+            ctx.nontrivial(2);
+        } else if let Some(arr) = detail.get("db").and_then(Value::as_array) {
             let recs: Vec<BuildRecord> = arr.iter().filter_map(|v| serde_json::from_value(v.clone()).ok()).collect();
             println!("replaying database with {} records; instants are re-derived from the recorded RFC 3339 texts (UTC fields as generated)", recs.len());
             let builds: Vec<GenBuild> = recs
@@ -1591,6 +1671,23 @@ fn main() {
     });
     ctx.obs("phaseB.databases", nb as u64);
 
+    // phase C: server configurations (hostile cdn_hosts / cdn_path through ServerConfig::validate, Server::new + run)
+    let cases_c = ext::config_cases(&ctx);
+    ctx.obs("phaseC.configurations", cases_c.len() as u64);
+    rt.block_on(async {
+        // single-field cases first: what they find explains failures of the pairs
+        let (singles, pairs): (Vec<_>, Vec<_>) = cases_c.into_iter().partition(|c| c.field != "both");
+        for batch in [singles, pairs] {
+            futures::stream::iter(batch)
+                .for_each_concurrent(8, |case| {
+                    let ctx = &ctx;
+                    async move { ext::run_config_case(ctx, case).await }
+                })
+                .await;
+        }
+        ext::shutdown_configured_servers(&ctx).await;
+    });
+
     // hostile requests
     rt.block_on(hostile_part(&ctx));
 
@@ -1607,6 +1704,11 @@ fn main() {
     }
     if ctx.get_obs("request.tcp-v1.versions") == 0 || ctx.get_obs("request.tcp-v2.versions") == 0 || ctx.get_obs("request.http.versions") == 0 {
         ctx.inconclusive("a transport was never exercised");
+    }
+    for k in ["config.servers_started_with_Server::run", "config.request.tcp-v1.cdns", "config.request.http.cdns", "unknown-product.request.tcp-v1", "unknown-product.request.tcp-v2", "unknown-product.request.http", "reader.replies", "reader.parse_schema.agrees", "reader.from_path.agrees", "reader.trickling-reader.agrees"] {
+        if ctx.get_obs(k) == 0 {
+            ctx.inconclusive(&format!("a sub-workload the verdict relies on never ran or was never judged: {k}"));
+        }
     }
     rt.shutdown_timeout(Duration::from_secs(2));
     ctx.finish();
